@@ -16,6 +16,11 @@
 //!     side  0 = guest is the destination, 1 = guest is the source, 2 = neither
 //! Suite C06atomic - Bytes::store / Bytes::load / get_atomic_ref refuse misaligned addresses:
 //!   case: mode ep size goff len        obs: st off rt
+//! Suite C06order - the memory ordering a caller asks of Bytes::store / Bytes::load is the one that reaches the atomic,
+//!   and each call makes exactly one atomic access.  Observed through third-party AtomicInteger / AtomicAccess
+//!   implementations (`SpyA*` over the std atomics) that log the ordering they are called with:
+//!   case: mode ep size store_order load_order     obs: st seen_store seen_load nstores nloads
+//!   ep 0 VolatileSlice, 1 region, 2 guest memory; order 0 Relaxed 1 Release 2 Acquire 3 AcqRel 4 SeqCst.
 //! Suite C06tear (thorough tier only) - two-thread writer/reader tearing detector, black box.
 use crate::tok::{n, us};
 use crate::{util, Rng, Suite, Tier, Tok};
@@ -33,6 +38,7 @@ pub const SUITES: &[Suite] = &[
     Suite { name: "C06", gen, exec },
     Suite { name: "C06atomic", gen: gen_atomic, exec: exec_atomic },
     Suite { name: "C06tear", gen: gen_tear, exec: exec_tear },
+    Suite { name: "C06order", gen: gen_order, exec: exec_order },
 ];
 
 const PAGE: usize = 4096;
@@ -732,6 +738,145 @@ fn gen_tear(_rng: &mut Rng, tier: Tier, emit: &mut dyn FnMut(Vec<Tok>)) {
     for level in 0..=1u64 {
         for size in [2usize, 4, 8] {
             emit(vec![n(mode), n(level), us(size), n(millis)]);
+        }
+    }
+}
+
+
+// ------------------------------------------------------------------ C06order
+thread_local! {
+    /// (kind 0 load / 1 store, ordering code) of every call that reached a spy atomic
+    static SPY: std::cell::RefCell<Vec<(u8, u8)>> = const { std::cell::RefCell::new(Vec::new()) };
+}
+fn ord_code(o: Ordering) -> u8 {
+    match o {
+        Ordering::Relaxed => 0,
+        Ordering::Release => 1,
+        Ordering::Acquire => 2,
+        Ordering::AcqRel => 3,
+        Ordering::SeqCst => 4,
+        _ => 9,
+    }
+}
+fn ord_of(c: u64) -> Ordering {
+    match c {
+        0 => Ordering::Relaxed,
+        1 => Ordering::Release,
+        2 => Ordering::Acquire,
+        3 => Ordering::AcqRel,
+        _ => Ordering::SeqCst,
+    }
+}
+macro_rules! spy {
+    ($A:ident, $V:ident, $std:ty, $raw:ty) => {
+        #[repr(transparent)]
+        pub struct $A($std);
+        // SAFETY: consists exclusively of one std atomic integer
+        unsafe impl vm_memory::AtomicInteger for $A {
+            type V = $raw;
+            fn new(v: $raw) -> Self {
+                $A(<$std>::new(v))
+            }
+            fn load(&self, order: Ordering) -> $raw {
+                SPY.with(|l| l.borrow_mut().push((0, ord_code(order))));
+                self.0.load(order)
+            }
+            fn store(&self, val: $raw, order: Ordering) {
+                SPY.with(|l| l.borrow_mut().push((1, ord_code(order))));
+                self.0.store(val, order)
+            }
+        }
+        #[repr(transparent)]
+        #[derive(Clone, Copy, Default, PartialEq, Debug)]
+        pub struct $V($raw);
+        // SAFETY: a transparent wrapper of a plain integer
+        unsafe impl ByteValued for $V {}
+        impl From<$raw> for $V {
+            fn from(v: $raw) -> Self {
+                $V(v)
+            }
+        }
+        impl From<$V> for $raw {
+            fn from(v: $V) -> $raw {
+                v.0
+            }
+        }
+        impl vm_memory::AtomicAccess for $V {
+            type A = $A;
+        }
+    };
+}
+spy!(SpyA8, SpyV8, std::sync::atomic::AtomicU8, u8);
+spy!(SpyA16, SpyV16, std::sync::atomic::AtomicU16, u16);
+spy!(SpyA32, SpyV32, std::sync::atomic::AtomicU32, u32);
+spy!(SpyA64, SpyV64, std::sync::atomic::AtomicU64, u64);
+
+fn order_roundtrip<A: Copy, C: Bytes<A>>(c: &C, addr: A, size: usize, os: Ordering, ol: Ordering) -> u64 {
+    macro_rules! go {
+        ($v:ident, $raw:ty) => {{
+            let val = $v(0x5a5a_a5a5_1234_8765u64 as $raw);
+            match c.store::<$v>(val, addr, os) {
+                Err(_) => 1,
+                Ok(()) => match c.load::<$v>(addr, ol) {
+                    Ok(b) if b == val => 0,
+                    Ok(_) => 2,
+                    Err(_) => 1,
+                },
+            }
+        }};
+    }
+    match size {
+        1 => go!(SpyV8, u8),
+        2 => go!(SpyV16, u16),
+        4 => go!(SpyV32, u32),
+        _ => go!(SpyV64, u64),
+    }
+}
+
+fn exec_order(case: &[Tok]) -> Vec<Tok> {
+    if case.len() != 5 {
+        return bad();
+    }
+    let (ep, size, os, ol) = (case[1].u(), case[2].u() as usize, case[3].u(), case[4].u());
+    // std panics on an Acquire / AcqRel store and on a Release / AcqRel load: not requested here
+    if ![1, 2, 4, 8].contains(&size) || ep > 2 || ![0, 1, 4].contains(&os) || ![0, 2, 4].contains(&ol) {
+        return bad();
+    }
+    WORLD.with(|w| {
+        SPY.with(|l| l.borrow_mut().clear());
+        let r = util::catch(|| match ep {
+            0 => {
+                let vs = unsafe { VolatileSlice::new(w.arena.add(64), 64) };
+                order_roundtrip(&vs, 8usize, size, ord_of(os), ord_of(ol))
+            }
+            1 => {
+                let region = w.gm.iter().next().unwrap();
+                order_roundtrip(region, MemoryRegionAddress(PAGE as u64 + 16), size, ord_of(os), ord_of(ol))
+            }
+            _ => order_roundtrip(&w.gm, GuestAddress(GUEST_BASE + 2 * PAGE as u64 + 24), size, ord_of(os), ord_of(ol)),
+        });
+        let log = SPY.with(|l| l.borrow().clone());
+        let stores: Vec<u8> = log.iter().filter(|e| e.0 == 1).map(|e| e.1).collect();
+        let loads: Vec<u8> = log.iter().filter(|e| e.0 == 0).map(|e| e.1).collect();
+        vec![
+            n(r.unwrap_or(3)),
+            n(stores.first().copied().unwrap_or(9)),
+            n(loads.first().copied().unwrap_or(9)),
+            us(stores.len()),
+            us(loads.len()),
+        ]
+    })
+}
+
+fn gen_order(_rng: &mut Rng, _tier: Tier, emit: &mut dyn FnMut(Vec<Tok>)) {
+    let mode = crate::build_mode();
+    for ep in 0..=2u64 {
+        for size in [1usize, 2, 4, 8] {
+            for os in [0u64, 1, 4] {
+                for ol in [0u64, 2, 4] {
+                    emit(vec![n(mode), n(ep), us(size), n(os), n(ol)]);
+                }
+            }
         }
     }
 }
